@@ -29,7 +29,8 @@ def queries(tier, kfs):
         qs.append(Query('single_router.%s' % t, 'router.cpp', 'c04.c', dict(FSV_GRID=1, FSV_N=n, FSV_D=d, FSV_CACHE=1),
                         dict(N=n, D=d, GRID=1, BLMASK=1, USE_MASK=0, TABLE='"%s.h"' % t, THREADS=0), unwind=max(16, n * (d + 1) + 3), diff=0,
                         bounds=dict(unit='single_flow_router', table=t), **kw))
-        qs.append(Query('multi_router.%s' % t, 'router.cpp', 'c05.c', dict(FSV_GRID=1, FSV_N=n, FSV_D=d),
+        if tier != 'quick':
+          qs.append(Query('multi_router.%s' % t, 'router.cpp', 'c05.c', dict(FSV_GRID=1, FSV_N=n, FSV_D=d),
                         dict(N=n, D=d, GRID=1, BLMASK=1, USE_MASK=0, TABLE='"%s.h"' % t, PEXP=1, ROUNDS=1, NO_WEIGHTS=1), unwind=max(16, n * (d + 1) + 3), diff=0,
                         bounds=dict(unit='multi_flow_router', table=t), **kw))
     # worker-pool partition arithmetic and eroder setter
